@@ -13,6 +13,7 @@ import (
 
 	fzf "github.com/junegunn/fzf/src"
 
+	"verif/harness/fzfrun"
 	"verif/harness/vk"
 )
 
@@ -85,9 +86,15 @@ func (s *Session) Next(current string) string {
 
 func Main(prop, tier string) int {
 	r := vk.New("C18", tier)
-	r.Rule = "random multi-session histories against the real History (NewHistory / previous / next / override / append in the order the terminal uses them): initial file missing, empty, with/without trailing newline, longer than the limit, with blank lines; limits 1..6 and 1000; per session 0..12 navigation steps with edits in between, then submit (possibly of an edited old entry), empty submit, or abort. After every step the returned string, after every session the file bytes are compared with the model. distinct = (initial-file class, limit, session shape) signatures"
+	r.Rule = "random multi-session histories against the real History (NewHistory / previous / next / override / append in the order the terminal uses them): initial file missing, empty, with/without trailing newline, longer than the limit, with blank lines; limits 1..6 and 1000; per session 0..12 navigation steps with edits in between, then submit (possibly of an edited old entry), empty submit, or abort. After every step the returned string, after every session the file bytes are compared with the model. Interactive: real sessions with --history/--history-size in a private tmux server, prev-history/next-history/typing through POST, ended by accept (match or no match) or abort; prompt text after each step and file bytes after each session against the same model. distinct = (initial-file class, limit, session shape) signatures"
 	r.Assumptions = []string{"queries contain no newline", "the terminal calls override(current) before previous()/next() and append(query) only on accept (exit status 0 or 1)"}
 	r.Fanout("c18", vk.NumWorkers(), 30*time.Minute)
+	if _, err := fzfrun.Bin(); err == nil {
+		r.Fanout("c18tty", vk.NumWorkers(), 30*time.Minute)
+		r.Floor("tty_sessions", 10)
+	} else {
+		r.Inconclusive(err.Error())
+	}
 	r.Floor("sessions", 1000)
 	r.Floor("nav_steps", 1000)
 	return r.Finish()
